@@ -1596,8 +1596,8 @@ func init() {
 			"pretty|compact x all|subset. Oracles: file complete; import succeeds; every source document has a counterpart under _docIDNew with equal values kind by kind and relations equal through the id map; " +
 			"re-export equivalent modulo _docID := _docIDNew; a schema-violating document at every position and storage faults at sampled operations leave /db/data,/db/heads,/db/blocks unchanged. " +
 			"non-trivial = round trip with >= 1 integer beyond 2^53, >= 1 compared relation and >= 1 null; distinct by (collections, topologies, value classes, format, subset).",
-		Cases:  c18Cases,
-		Run:    c18Run,
+		Cases: c18Cases,
+		Run:   c18Run,
 		Floors: []string{"imports", "reexports", "exports_with_deleted_document", "format_pretty", "format_compact", "subset_exports", "nontrivial_round_trips", "docs_whose_id_changes", "relations_to_doc_whose_id_changes",
 			"class_int_beyond_2p53", "class_int_extreme", "class_float_huge", "class_float_subnormal_or_min", "class_float_negative_zero", "class_string_long", "class_string_unicode_or_escape",
 			"class_datetime_subsecond", "class_blob", "class_json_deep", "class_array_empty", "class_array_null_element", "class_null",
